@@ -70,12 +70,12 @@ CLAIMED = {
   note="Assumed: sort.Slice returns a permutation ordered by a less function that is a strict weak order (the strict-weak-order conditions are proof obligations); a map range yields each key at most once; FS.Walk contract (invokes its callback); filepath functions uninterpreted.",
   design="DESIGN.md section 3 C18"),
  "C19": dict(
-  text="Proof: buffer.alloc hands out the next n bytes of the concatenation view (region directly behind the last one or a fresh chunk at the end; earlier chunks keep position, backing array and length; index/slice safety; no overflow); in the receive loop every non-listing-name STAT is framed as LE32(size)+record of exactly that size, the listing's own name is skipped but still counted in the id sequence (found and repaired), ids are registered only for selected files.",
-  note="Assumed: record bytes = marshalled stat (trusted generated MarshalToSizedBufferVT/SizeVT); selector callback; ancestor-stack replay order is checked only through the forward-after-validation obligation.",
+  text="Proof: buffer.alloc hands out the next n bytes of the concatenation view (region directly behind the last one or a fresh chunk at the end; earlier chunks keep position, backing array and length; index/slice safety; no overflow); in the receive loop every non-listing-name STAT is framed as LE32(size)+record of exactly that size, the listing's own name is skipped but still counted in the id sequence (found and repaired), ids are registered only for selected files; each record is exactly SizeVT bytes (encoder proved against the size specification); the pending unselected directories form a chain of direct parents (so only ancestors are replayed); the listing is written chunk by chunk in order to dest/.fsutil-metadata after both goroutines ended and a stale entry was removed.",
+  note="Assumed: record bytes are the protobuf encoding of the stat (content of varints/tags not decided); selector callback.",
   design="DESIGN.md section 3 C19"),
  "C20": dict(
-  text="Proof with exact bit-vector integers and loop invariants re-inferred on every run (Houdini): the hand-optimised decoders (*Packet).UnmarshalVT and (*Stat).UnmarshalVT never index, slice or allocate out of range for any byte string and any prior message (all 40+ loops), assign slice fields only their old or a fresh backing array (never the input buffer), the exported Unmarshal uses the copying decoder; protoStream.SendMsg writes one frame of 4+Size() bytes with a big-endian prefix (the message type must implement the marshaling interface - found missing, repaired), RecvMsg reads exactly one frame into a buffer of exactly the declared length, leaves the message untouched for an empty frame and fails only when reading or decoding fails. Not decided: Unmarshal(Marshal(x)) == x for multi-field messages and equality with the reflection-based protobuf runtime (out of reach, stated).",
-  note="Assumed: protohelpers.Skip results unconstrained (callers re-check), generated SizeVT/MarshalToSizedBufferVT/ResetVT trusted, io.ReadFull/Writer contracts, sync.Pool holds *[]byte.",
+  text="Proof with exact bit-vector integers and loop invariants re-inferred on every run (Houdini): the hand-optimised decoders (*Packet).UnmarshalVT and (*Stat).UnmarshalVT never index, slice or allocate out of range for any byte string and any prior message (all 40+ loops), assign slice fields only their old or a fresh backing array (never the input buffer), the exported Unmarshal uses the copying decoder; protoStream.SendMsg writes one frame of 4+Size() bytes with a big-endian prefix (the message type must implement the marshaling interface - found missing, repaired), RecvMsg reads exactly one frame into a buffer of exactly the declared length, leaves the message untouched for an empty frame and fails only when reading or decoding fails. Encoder side: SizeVT of Stat and Packet proved equal to size specification functions (xattrs as a ghost sum over the map range), MarshalToSizedBufferVT of both proved to stay inside a buffer of that size and to report exactly that size, so SendMsg always writes exactly one frame of 4 + size bytes and MarshalTo cannot fail for a Packet. Not decided: that the bytes are the protobuf encoding (varint content, tag numbers), Unmarshal(Marshal(x)) == x, equality with the reflection-based protobuf runtime (out of reach, stated).",
+  note="Assumed: protohelpers.Skip results unconstrained (callers re-check), SizeOfVarint in 1..10 and EncodeVarint's offset arithmetic (audited), dispatch of the framing layer's interface calls to (*Packet).Size/MarshalTo, Packet.Reset trusted (generated), io.ReadFull/Writer contracts, sync.Pool holds *[]byte.",
   design="DESIGN.md section 3 C20"),
 }
 
